@@ -175,8 +175,14 @@ func findGV(name string, level int) (gen.GV, bool) {
 
 // ---------------- C04 ----------------
 
-func c04Case(c *fx.Ctx, g gen.GV, level int, f codec.Format) {
+func c04Case(c *fx.Ctx, g gen.GV, level int, f codec.Format) { c04CaseCfg(c, g, level, f, "default") }
+
+// c04CaseCfg: cfgName "default", or "omit-never" (every field is written, nil pointers as null).
+func c04CaseCfg(c *fx.Ctx, g gen.GV, level int, f codec.Format, cfgName string) {
 	cfg := configuration.New()
+	if cfgName == "omit-never" {
+		cfg.Iterator.DefaultFieldOmitBehavior = configuration.OmitFieldNever
+	}
 	var doc []byte
 	var err error
 	err = safeCall(func() error {
@@ -189,7 +195,7 @@ func c04Case(c *fx.Ctx, g gen.GV, level int, f codec.Format) {
 		return e
 	})
 	c.Add("evaluations", 1)
-	w := gvW(g, level, f.String(), "default")
+	w := gvW(g, level, f.String(), cfgName)
 	if err != nil {
 		c.Violation(fmt.Sprintf("marshal-fails:%s:%s:%s", f, leafKind(g.Class), errClassFor(g.Class, err)), fmt.Sprintf("marshal of %s (%s) to %s fails: %v", g.Name, clipS(fmt.Sprintf("%#v", g.V)), f, err), w)
 		return
@@ -447,10 +453,13 @@ func init() {
 				}
 				for _, f := range []codec.Format{codec.CBE, codec.CTE} {
 					c04Case(c, g, level, f)
+					if strings.Contains(g.Class, "struct") || strings.Contains(g.Class, "pair") || strings.Contains(g.Class, "embedded") || strings.Contains(g.Class, "field") {
+						c04CaseCfg(c, g, level, f, "omit-never")
+					}
 				}
 			}
 		},
-		Replay: gvReplay(func(c *fx.Ctx, g gen.GV, w gvWitness) { c04Case(c, g, w.Level, fmtOf(w.Format)) }),
+		Replay: gvReplay(func(c *fx.Ctx, g gen.GV, w gvWitness) { c04CaseCfg(c, g, w.Level, fmtOf(w.Format), w.Config) }),
 	})
 	register(&fx.Check{
 		ID:    "C18",
